@@ -86,7 +86,8 @@ class HandoverClient(object):
             log.debug("received '{0}' message".format(records[0].type))
             return list(ndef.message_decoder(octets, 'relax'))
         else:
-            log.error("received invalid message %s", binascii.hexlify(octets))
+            log.error("received invalid message %s",
+                      binascii.hexlify(octets or b''))
             return []
 
     def recv_octets(self, timeout=None):
